@@ -21,8 +21,10 @@ impl Tour {
     pub fn all_activities(&self) -> std::slice::Iter<Activity> { self.activities.iter() }
 }
 pub struct Route { pub actor: Arc<Actor>, pub tour: Tour }
-pub struct RouteContext { pub route: Route }
-impl RouteContext { pub fn route(&self) -> &Route { &self.route } }
+/// `stale`: the real context's flag (set by every mutable access, cleared by accept_route_state; unit U05a). The set of tours
+/// can change without any remaining route being stale (a whole route removed), so the flag says nothing about solution-level caches
+pub struct RouteContext { pub route: Route, pub stale: bool }
+impl RouteContext { pub fn route(&self) -> &Route { &self.route } pub fn is_stale(&self) -> bool { self.stale } }
 #[derive(Default)] pub struct SolutionState { pub tour_order_violations: Option<usize> }
 impl SolutionState {
     pub fn get_tour_order_violations(&self) -> Option<&usize> { self.tour_order_violations.as_ref() }
@@ -99,7 +101,7 @@ mod h {
     }
     fn order_fn() -> TourOrderFn { Either::Left(Arc::new(|s: &Single| s.order)) }
     fn act(o: Option<OrderResult>) -> Activity { Activity { job: o.map(|order| Arc::new(Single { order })) } }
-    fn route(o1: OrderResult, o2: OrderResult) -> RouteContext { RouteContext { route: Route { actor: Arc::new(Actor), tour: Tour { activities: vec![act(None), act(Some(o1)), act(Some(o2)), act(None)] } } } }
+    fn route(o1: OrderResult, o2: OrderResult) -> RouteContext { RouteContext { route: Route { actor: Arc::new(Actor), tour: Tour { activities: vec![act(None), act(Some(o1)), act(Some(o2)), act(None)] } }, stale: false } }
 
     /// C01 (tour order as hard constraint): an activity is let in at a leg exactly when nothing in front of it has to come later and
     /// nothing behind it has to come earlier; a conflict in front stops the search of this tour, one behind only skips the leg
@@ -134,7 +136,7 @@ mod h {
     #[kani::proof] #[kani::unwind(7)]
     fn order_violations_cached_equals_recomputed() {
         let (o1, o2, o3) = (any_order(), any_order(), any_order());
-        let rc = RouteContext { route: Route { actor: Arc::new(Actor), tour: Tour { activities: vec![act(None), act(Some(o1)), act(Some(o2)), act(Some(o3)), act(None)] } } };
+        let rc = RouteContext { route: Route { actor: Arc::new(Actor), tour: Tour { activities: vec![act(None), act(Some(o1)), act(Some(o2)), act(Some(o3)), act(None)] } }, stale: kani::any() };
         let garbage: usize = kani::any();
         let mut ic = InsertionContext { solution: SolutionContext { routes: vec![rc], state: SolutionState { tour_order_violations: if kani::any() { Some(garbage) } else { None } } } };
         // independent count: walk the non-ignored answers, compare neighbours
